@@ -55,6 +55,7 @@ type Scenario struct {
 	N      int    `json:"n"`
 	F      int    `json:"f"`
 	Byz    []int  `json:"byz"` // Byzantine oracle ids (|Byz| <= F)
+	Heavy  bool   `json:"heavy,omitempty"` // report gas limit 5,000,000 / overhead 300,000; every second unit of work is checked with 5,000,000 gas
 	Steps  []Step `json:"steps"`
 	// observed (summary; the full log goes to the Coq term)
 	Rounds    int    `json:"rounds"`
@@ -78,9 +79,17 @@ func pdOf(wid string) []byte {
 	return h[:4+int(h[0])%9]
 }
 
+// heavyGas (set per scenario): every second unit of work is checked with 5,000,000 gas, which together with the
+// 300,000 overhead exceeds the scenario's report gas limit of 5,000,000 on its own
+var heavyGas bool
+
 func resultFor(p common.UpkeepPayload) common.CheckResult {
+	gas := 100000 + uint64(len(p.WorkID))
+	if heavyGas && p.WorkID[len(p.WorkID)-1]%2 == 0 {
+		gas = 5_000_000
+	}
 	return common.CheckResult{Eligible: true, UpkeepID: p.UpkeepID, Trigger: p.Trigger, WorkID: p.WorkID,
-		GasAllocated: 100000 + uint64(len(p.WorkID)), PerformData: pdOf(p.WorkID), FastGasWei: bigOf(1000), LinkNative: bigOf(2000)}
+		GasAllocated: gas, PerformData: pdOf(p.WorkID), FastGasWei: bigOf(1000), LinkNative: bigOf(2000)}
 }
 
 func (h *hnode) pipeline(_ context.Context, ps ...common.UpkeepPayload) ([]common.CheckResult, error) {
@@ -121,8 +130,11 @@ var cfgDigest = ocr2plustypes.ConfigDigest{7, 7}
 
 func newHonest(t *testing.T, sc *Scenario, id int) *hnode {
 	h := &hnode{id: id, checked: map[string]common.CheckResult{}}
-	h.nd = NewNode(t, NodeOpts{N: sc.N, F: sc.F, Oracle: id, Digest: cfgDigest,
-		Offchain: `{"minConfirmations":1,"maxUpkeepBatchSize":3,"performLockoutWindow":100000}`})
+	off := `{"minConfirmations":1,"maxUpkeepBatchSize":3,"performLockoutWindow":100000}`
+	if sc.Heavy {
+		off = `{"minConfirmations":1,"maxUpkeepBatchSize":3,"performLockoutWindow":100000,"gasLimitPerReport":5000000,"gasOverheadPerUpkeep":300000}`
+	}
+	h.nd = NewNode(t, NodeOpts{N: sc.N, F: sc.F, Oracle: id, Digest: cfgDigest, Offchain: off})
 	h.nd.Runnable.SetFn(h.pipeline)
 	return h
 }
@@ -179,6 +191,7 @@ type producedReport struct {
 }
 
 func runScenario(t *testing.T, sc *Scenario) {
+	heavyGas = sc.Heavy
 	isByz := map[int]bool{}
 	for _, b := range sc.Byz {
 		isByz[b] = true
